@@ -42,7 +42,9 @@ def predicting(args):
             ctx = box['ctx']
             box['consulted'].append(len(box['requests']) - 1)
             j = len(box['consulted'])
-            if ctx.choice('hook_accepts%d' % j, 2) == 1:
+            script = box.get('script')
+            accept = (script[len(box['requests']) - 1] == 'P') if script else (ctx.choice('hook_accepts%d' % j, 2) == 1)
+            if accept:
                 v = [ctx.real('P_call%d' % j)]
                 box['predicted'].append(v)
                 return v
@@ -56,7 +58,7 @@ def predicting(args):
 
         def train(self):
             self.train_calls.append(self.eval_counter)
-            self.trained = box['ctx'].choice('trained_after_train%d' % len(self.train_calls), 2) == 1
+            self.trained = True if box.get('script') else box['ctx'].choice('trained_after_train%d' % len(self.train_calls), 2) == 1
 
         def predict(self, x, *a):
             raise AssertionError('regressor.predict is not part of the accounting')
@@ -67,7 +69,7 @@ def predicting(args):
     def body(ctx):
         ec.reset_problem(prob, ctx)
         prob.h.may_be_inf = bool(args.get('inf'))
-        box.update(ctx=ctx, consulted=[], predicted=[], requests=[])
+        box.update(ctx=ctx, consulted=[], predicted=[], requests=[], script=args.get('script'))
         returned = []
         # state that survives between uses: another model object of the same class was filled and trained earlier
         decoy = Model(prob)
@@ -76,8 +78,15 @@ def predicting(args):
         decoy.train_calls.append(1)
         model = Model(prob)
         prob.surrogate = model
-        model.train_step = [-1, 1, 2, 3][ctx.choice('train_step', 4)]
-        model.trained = ctx.choice('trained0', 2) == 1
+        if args.get('script'):
+            # LONG request sequence: the accept / decline pattern of the hook is scripted (E = the hook declines or is not
+            # consulted, P = it accepts when consulted), every training succeeds, train_step is fixed; vectors, objective
+            # values and predictions stay symbolic
+            model.train_step = args['train_step']
+            model.trained = False
+        else:
+            model.train_step = [-1, 1, 2, 3][ctx.choice('train_step', 4)]
+            model.trained = ctx.choice('trained0', 2) == 1
         # reference automaton
         r_trained = model.trained
         r_eval = r_pred = 0
@@ -110,7 +119,8 @@ def predicting(args):
                 r_x.append(list(ind.vector))
                 r_y.append(list(ret) if isinstance(ret, (list, tuple)) else ret)       # copies: the oracle must not alias the model's lists
                 returned.append((ret, list(ret) if isinstance(ret, (list, tuple)) else ret))
-                if model.train_step != -1 and r_eval % model.train_step == 0:
+                step = args['train_step'] if args.get('script') else model.train_step     # scripted: the step the user configured
+                if step != -1 and r_eval % step == 0:
                     r_train.append(r_eval)
             ctx.check('evaluation-counter', model.eval_counter != r_eval)
             ctx.check('prediction-counter', model.predict_counter != r_pred)
@@ -174,6 +184,10 @@ def configs(tier):
                     'engine': {'validate': 20}})
     out.append({'name': 'predict-k3-hook-train_step-changes-at-request-1', 'task': 'predicting',
                 'args': {'k': 3, 'hook': True, 'train_step_changes': 1}, 'weight': 4 ** 3 * 4, 'split': 48, 'engine': {'validate': 20}})
+    scripts = [(4, 'EEEEPPPPEEEEEE'), (5, 'EEEEEPPPEPEEEEEEE'), (7, 'EEEEEEEPPPPEEEEEEEEEEEEEE'), (4, 'EEEEPEPEPEPEEEEE')]
+    for ts, sc in (scripts[:3] if tier == 'quick' else scripts):
+        out.append({'name': 'predict-scripted-train_step%d-%s' % (ts, sc), 'task': 'predicting',
+                    'args': {'k': len(sc), 'hook': True, 'script': sc, 'train_step': ts}, 'weight': len(sc), 'engine': {'validate': 5}})
     out.append({'name': 'predict-k2-hook-objective-may-return-inf', 'task': 'predicting',
                 'args': {'k': 2, 'hook': True, 'inf': True}, 'weight': 40, 'engine': {'validate': 20}})
     return out
